@@ -76,6 +76,27 @@ pub mod prepared {
         statement_from_prepared_lwt(prepared, cdc, false)
     }
 
+    /// `batch_values::peek_first_token(values, batch.statements.first())` exactly as `Session::batch`
+    /// calls it; the token only.
+    #[allow(clippy::result_large_err)]
+    pub fn batch_first_token<V: crate::serialize::batch::BatchValues>(
+        batch: &crate::statement::batch::Batch,
+        values: V,
+    ) -> Result<Option<crate::routing::Token>, crate::errors::ExecutionError> {
+        crate::statement::batch::batch_values::peek_first_token(values, batch.statements.first())
+            .map(|(t, _)| t)
+    }
+
+    /// `lookup_table_meta` + `do_compute_token` (the body of `compute_token_preserialized`).
+    pub fn compute_token_preserialized(
+        cs: &crate::cluster::ClusterState,
+        keyspace: &str,
+        table: &str,
+        key: &SerializedValues,
+    ) -> Result<crate::routing::Token, crate::errors::ClusterStateTokenError> {
+        cs.verif_compute_token_preserialized(keyspace, table, key)
+    }
+
     /// As `statement_from_prepared`, with the `is_lwt` flag of the PREPARED response
     /// (`PreparedStatement::is_confirmed_lwt`).
     pub fn statement_from_prepared_lwt(
